@@ -29,6 +29,15 @@ class _MatterLoader(BaseLoader):
         return TemplateSource(self.source, template_name, None, self.matter)
 
 
+from liquid2.builtin.loaders.mixins import CachingLoaderMixin  # noqa: E402
+
+
+class _CachingMatterLoader(CachingLoaderMixin, _MatterLoader):
+    def __init__(self, source: str, matter: dict):
+        CachingLoaderMixin.__init__(self, auto_reload=False, namespace_key="", capacity=10)
+        _MatterLoader.__init__(self, source, matter)
+
+
 PROGRAMS = [
     "{% assign r = a | sort %}{% assign r = a | sort_natural %}{% assign r = a | sort_numeric %}{{ a | reverse | first }}",
     "{% assign r = a | concat: a %}{% assign r = a | uniq %}{% assign r = a | compact %}{% assign r = a | slice: 1, 2 %}{{ a | join: ',' }}",
@@ -101,25 +110,32 @@ def _prec_source(name: str, counter: bool, local: bool, block: bool) -> str:
 
 
 @cond(
-    pre=["True"],
+    pre=["0 <= cached <= 2"],
     timeout=300,
     shard={"name": ["v", "now"]},
-    covers="a name bound in any subset of the layers block scope / local / render argument / loader matter / template global / environment global / built-in (now) / counter resolves to the highest present layer, in exactly that order",
-    bounds="2^7 presence assignments for name v (no built-in) and for name now (built-in always present, counter therefore never visible); distinct value per layer",
-    grid=lambda: [(nm, b0, b1, b2, b3, b4, b5, b6) for nm in ("v", "now") for b0 in (0, 1) for b1 in (0, 1) for b2 in (0, 1) for b3 in (0, 1) for b4 in (0, 1) for b5 in (0, 1) for b6 in (0, 1)],
+    covers="a name bound in any subset of the layers block scope / local / render argument / loader matter / template global / environment global / built-in (now) / counter resolves to the highest present layer, in exactly that order - also when the template is served by a caching loader, on the first load and on a cache hit",
+    bounds="2^7 presence assignments for name v (no built-in) and for name now (built-in always present, counter therefore never visible); distinct value per layer; plain loader / caching loader first load / caching loader cache hit",
+    grid=lambda: [(nm, b0, b1, b2, b3, b4, b5, b6, c) for nm in ("v", "now") for b0 in (0, 1) for b1 in (0, 1) for b2 in (0, 1) for b3 in (0, 1) for b4 in (0, 1) for b5 in (0, 1) for b6 in (0, 1) for c in (0, 1, 2)],
 )
-def s_precedence(name: str, block: bool, local: bool, arg: bool, matter: bool, tglobal: bool, eglobal: bool, counter: bool) -> bool:
+def s_precedence(name: str, block: bool, local: bool, arg: bool, matter: bool, tglobal: bool, eglobal: bool, counter: bool, cached: int) -> bool:
     block, local, arg, matter, tglobal, eglobal, counter = (bool(x) for x in (block, local, arg, matter, tglobal, eglobal, counter))
+    cached = concrete_int(cached, 0, 2)
     src = _prec_source(name, counter, local, block)
 
-    def build():
-        e = Environment(loader=_MatterLoader(src, {name: 4} if matter else {}), globals={name: 6} if eglobal else None)
-        return e.get_template("t", globals={name: 5} if tglobal else None)
+    def run():
+        # cached == 0: plain loader; 1: caching loader, first load; 2: caching loader, the template comes from a cache hit
+        loader_cls = _CachingMatterLoader if cached else _MatterLoader
+        e = Environment(loader=loader_cls(src, {name: 4} if matter else {}), globals={name: 6} if eglobal else None)
+        if cached == 2:
+            e.get_template("t", globals={name: 5} if tglobal else None)
+        t = e.get_template("t", globals={name: 5} if tglobal else None)
+        try:
+            return t.render(**({name: 3} if arg else {}))
+        except LiquidError:
+            return None
 
-    t = untraced(build)
-    try:
-        out = t.render(**({name: 3} if arg else {}))
-    except LiquidError:
+    out = untraced(run)  # every input is concrete: the solver enumerates the presence assignments
+    if out is None:
         return False
     i, j = out.find("["), out.find("]")
     got = out[i + 1 : j]
